@@ -147,16 +147,14 @@ pub fn run(ctx: &mut Ctx) {
     ctx.assume("simplify iterates over a HashSet: each symbol is evaluated twice in the same process and a difference counts as a violation of invariance");
     crate::props::run_regressions(ctx, "C17");
     ctx.layer("exhaustive");
-    let maxn = t.pick(3, 4);
+    let (pool, pool_text) = symbol_pool(t.pick(3, 5), t.pick(4, 6), t.pick(8, 25));
     let mut cases: Vec<TorCase> = vec![];
-    for n in 1..=maxn {
-        for (k, s) in symbols_of_size(n, &CRYSTALLOGRAPHIC).into_iter().enumerate() {
-            cases.push(TorCase { swaps: vec![((k as u32).wrapping_mul(0x9e37_79b9), (k as u32 + 7).wrapping_mul(0x85eb_ca6b))], dual: k % 2 == 1, ds: s, known: String::new() });
-        }
+    for (k, s) in pool.into_iter().enumerate() {
+        cases.push(TorCase { swaps: vec![((k as u32).wrapping_mul(0x9e37_79b9), (k as u32 + 7).wrapping_mul(0x85eb_ca6b))], dual: k % 2 == 1, ds: s, known: String::new() });
     }
     cases.extend(corpus_cases(t.pick(4, 6)));
     let n = cases.len();
-    ctx.run_par(&SUB_VERDICT, cases.clone(), Some(&format!("{} cases: all 3D symbols with spherical links, branching in {{1,2,3,4,6}}, <= {} chambers; 20 literature symbols; products of all euclidean 2D symbols with <= {} chambers with the 4 line tilings", n, maxn, t.pick(4, 6))));
+    ctx.run_par(&SUB_VERDICT, cases.clone(), Some(&format!("{} cases: 3D symbols with spherical links and branching in {{1,2,3,4,6}}: {}; 20 literature symbols; products of all euclidean 2D symbols with <= {} chambers with the 4 line tilings", n, pool_text, t.pick(4, 6))));
     ctx.layer("random");
     let pool = Arc::new(cases.into_iter().filter(|c| !c.known.is_empty() || c.ds.size >= 2).collect::<Vec<_>>());
     ctx.run_prop(
